@@ -145,7 +145,6 @@ func init() {
 	}
 }
 
-
 func methodByName(fr *frame, t types.Type, name string) *ssa.Function {
 	ms := fr.i.prog.MethodSets.MethodSet(t)
 	for k := 0; k < ms.Len(); k++ {
